@@ -23,12 +23,12 @@ Lemma gen_canon_dumps_is_model inner p : gen_canon_dumps inner p = inner p.
 Proof. reflexivity. Qed.
 
 Lemma gen_signed_factory_is_model a : gen_signed_factory a = signed_factory a.
-Proof. reflexivity. Qed.
+Proof. destruct a as [sec salt m t r e [nm pa dm se ho ss]]. reflexivity. Qed.
 
 Lemma gen_config_is_model b : gen_config b = config b.
 Proof.
-  destruct b as [d m t r e]. unfold gen_config, config, cfg_conv, cfg_bind, oint.
-  cbn [b_ser b_max_age b_timeout b_reissue b_soe].
+  destruct b as [d m t r e [nm pa dm se ho ss]]. unfold gen_config, config, cfg_conv, cfg_bind, oint.
+  cbn [b_ser b_max_age b_timeout b_reissue b_soe b_attrs a_name a_path a_domain a_secure a_httponly a_samesite].
   destruct m, t, r; cbv beta iota delta [is_cnone py_truth];
     repeat match goal with |- context [int_of ?v] => destruct (int_of v) end;
     repeat match goal with
@@ -179,10 +179,71 @@ Proof.
   apply chain_refines_spec_canonical; try assumption. exact Logic.I.
 Qed.
 
+(* ------------------------------------------------------------------ calls: positional / keyword / omitted *)
+Lemma gen_sig_is_doc : gen_sig = doc_sig /\ gen_defaults = doc_defaults.
+Proof. split; reflexivity. Qed.
+
+Lemma index_of_doc d : In d doc_sig -> index_of d doc_sig 0 = Some d.
+Proof.
+  intros H. unfold doc_sig in H. cbn in H.
+  repeat (destruct H as [<-|H]; [reflexivity|]). destruct H.
+Qed.
+
+Lemma bind1_doc c d : wf_call c -> In d doc_sig -> bind1 doc_sig doc_defaults c d = doc_arg c d.
+Proof.
+  intros (_ & _ & G) H. unfold bind1. rewrite (index_of_doc d H). unfold doc_arg.
+  destruct (Nat.ltb d (c_npos c)) eqn:L.
+  - apply Nat.ltb_lt in L. assert (Nat.leb (c_npos c) d = false) as -> by (apply Nat.leb_gt; exact L). cbn [andb].
+    specialize (G d L). destruct (given c d); [reflexivity|congruence].
+  - reflexivity.
+Qed.
+
+Lemma map_opt_ext_in {A B} (f g : A -> option B) l : (forall x, In x l -> f x = g x) -> map_opt f l = map_opt g l.
+Proof.
+  induction l as [|x r IH]; intros H; [reflexivity|]. cbn [map_opt].
+  rewrite (H x (or_introl eq_refl)), IH; [reflexivity|]. intros y Hy. apply H. right. exact Hy.
+Qed.
+
+Lemma bind_call_doc c : wf_call c -> bind_call doc_sig doc_defaults c = doc_bind c.
+Proof. intros W. unfold bind_call, doc_bind. apply map_opt_ext_in. intros d H. apply bind1_doc; assumption. Qed.
+
+(* however the arguments are passed, the factory built is the documented reading of the call *)
+Lemma gfactory_call_is_spec c : wf_call c -> gfactory_call c = spec_factory_call c.
+Proof.
+  intros W. unfold gfactory_call, spec_factory_call. destruct gen_sig_is_doc as [-> ->].
+  rewrite (bind_call_doc c W). destruct (doc_bind c) as [l|]; [|reflexivity].
+  destruct (fargs_of l); [apply gfactory_is_spec|reflexivity].
+Qed.
+
+(* the cookie attributes reach the session class unchanged and uncrossed *)
+Lemma factory_call_attrs c : wf_call c -> gfactory_call c <> FacRaise -> gfactory_call c <> FacUnm ->
+  gcall_attrs c = doc_attrs c.
+Proof.
+  intros W. unfold gfactory_call, gcall_attrs, doc_attrs. destruct gen_sig_is_doc as [-> ->].
+  rewrite (bind_call_doc c W). destruct (doc_bind c) as [l|]; [|reflexivity].
+  destruct (fargs_of l) as [a|]; [|reflexivity]. unfold gfactory.
+  rewrite gen_config_is_model, gen_signed_factory_is_model. unfold config, signed_factory, cfg_bind.
+  cbn [b_max_age b_timeout b_reissue b_soe b_attrs].
+  destruct (cfg_conv (fa_max_age a)); try congruence.
+  destruct (cfg_conv (fa_reissue a)); try congruence.
+  destruct (cfg_conv (fa_timeout a)); try congruence. reflexivity.
+Qed.
+
+Lemma positional_is_keyword c c' : wf_call c -> wf_call c' -> c_vals c = c_vals c' ->
+  gfactory_call c = gfactory_call c'.
+Proof.
+  intros W W' E. rewrite !gfactory_call_is_spec by assumption. unfold spec_factory_call, doc_bind.
+  rewrite (map_opt_ext_in (doc_arg c) (doc_arg c') doc_sig); [reflexivity|].
+  intros d _. unfold doc_arg, given. rewrite E. reflexivity.
+Qed.
+
 (* ------------------------------------------------------------------ non-vacuity *)
+Definition ex_attrs : attrs :=
+  {| a_name := CStr [115]%N; a_path := CStr [47]%N; a_domain := CNone; a_secure := CBool false; a_httponly := CBool true;
+     a_samesite := CNone |}.
 Definition ex_args : fargs :=
   {| fa_secret := [115; 101; 99]%N; fa_salt := Some []; fa_max_age := CNone; fa_timeout := CBool false;
-     fa_reissue := CStr [49; 50]%N; fa_soe := CInt 0 |}.
+     fa_reissue := CStr [49; 50]%N; fa_soe := CInt 0; fa_attrs := ex_attrs |}.
 (* timeout=False is the number 0 (every session older than 0 s is emptied), reissue_time='12' is 12,
    set_on_exception=0 is false, salt='' gives the bare secret *)
 Example ex_factory : gfactory ex_args
@@ -190,15 +251,31 @@ Example ex_factory : gfactory ex_args
 Proof. vm_compute. reflexivity. Qed.
 Example ex_factory_raises :
   gfactory {| fa_secret := [115]%N; fa_salt := None; fa_max_age := CNone; fa_timeout := CStr [120]%N;
-              fa_reissue := CNone; fa_soe := CBool true |} = FacRaise.
+              fa_reissue := CNone; fa_soe := CBool true; fa_attrs := ex_attrs |} = FacRaise.
 Proof. vm_compute. reflexivity. Qed.
 
 (* the premise [unforged] is satisfiable by a chain that does present an altered cookie (the real wire format) *)
 Definition ex_unforged_chain : list req :=
-  [rf_r1; {| rsrc := SAltered []; rt := 404; rops := [(OItems, 404%Z)]; rexc := false |}].
+  [rf_r1; {| rsrc := SAltered []; rt := 404; rops := [(OItems, 404%Z)]; rexc := false; rcb := (0%nat, 0%nat) |}].
 Example ex_unforged : unforged rf_O rf_o ex_unforged_chain /\ wf_chain ex_unforged_chain.
 Proof.
   split; [|repeat constructor]. repeat constructor. cbn [rsrc]. intros m.
   cbn [b64 rf_O real_O mac]. unfold toy_mac. cbn [app].
   destruct m as [|b [|c r]]; cbn [b64enc app]; discriminate.
 Qed.
+
+(* SignedCookieSessionFactory('s', 'session', None, '/', None, False, False, 'Lax', False, 300, 60): eleven positional
+   arguments in the documented order: set_on_exception=False, timeout=300, reissue_time=60 *)
+Definition ex_call : fcall :=
+  {| c_npos := 11;
+     c_vals := [Some (CStr [115]%N); Some (CStr [115; 101; 115; 115; 105; 111; 110]%N); Some CNone; Some (CStr [47]%N);
+                Some CNone; Some (CBool false); Some (CBool false); Some (CStr [76; 97; 120]%N); Some (CBool false);
+                Some (CInt 300); Some (CInt 60); None; None; None] |}.
+Example ex_call_wf : wf_call ex_call.
+Proof.
+  split; [reflexivity|]. split; [cbn; lia|]. intros d H. cbn in H.
+  do 11 (destruct d as [|d]; [cbn; discriminate|]). lia.
+Qed.
+Example ex_call_factory : exists k,
+  gfactory_call ex_call = FacOk {| key := k; timeout := Some 300%Z; reissue := Some 60%Z; soe := false |}.
+Proof. eexists. vm_compute. reflexivity. Qed.
